@@ -1,6 +1,8 @@
 import DK.Driver.Leaf
 import DK.Driver.Tree
 import DK.Driver.Loader
+import DK.Driver.Serial
+import DK.Driver.TreeX
 /-! Line driver: one JSON operation per input line, one JSON answer per output line. -/
 namespace DK.Driver
 open Lean
@@ -17,6 +19,8 @@ def handle (line : String) : String :=
       else if op.startsWith "fn." then fnOp op j
       else if op = "kern" then kernOp j
       else if op.startsWith "loader." then loaderOp op j
+      else if op.startsWith "serial." then serialOp op j
+      else if op.startsWith "treex." then treexOp op j
       else throw s!"unknown op {op}" : Except String Json) with
     | .ok v => ok v
     | .error e => err e
